@@ -13,8 +13,13 @@ const HOOKS: [Hook; 3] = [Hook::BeforeReduce, Hook::BeforeEffect, Hook::BeforeDi
 
 /// Tail shared by all C12 scenarios: a sentinel action whose notification proves that every
 /// earlier action has been completely processed (effects handed to the pool), then stop.
-fn finish(mut b: ScnB, s: StoreIx, th: usize, followup_gate: GateId, expected_followups: u32) -> Scenario {
+fn finish(mut b: ScnB, s: StoreIx, th: usize, followup_gate: GateId, expected_followups: u32, late_sub: Option<SubId>) -> Scenario {
     let g = b.gate();
+    if let Some(sub) = late_sub {
+        // the store had no subscriber at all while the actions above went through it (every hook
+        // must run all the same); the observer arrives just in time for the sentinel
+        b.s.threads[th].push(Op::Subscribe { store: s, sub });
+    }
     let sentinel = b.action(s, 0);
     b.act_mut(sentinel).signal = Some(g);
     b.s.threads[th].push(Op::Dispatch { act: sentinel, via: Via::Inherent });
@@ -27,16 +32,18 @@ fn finish(mut b: ScnB, s: StoreIx, th: usize, followup_gate: GateId, expected_fo
     b.finish()
 }
 
-fn base(m: usize, cap: usize) -> (ScnB, StoreIx, Vec<CompId>, Vec<CompId>, usize, GateId) {
+fn base(m: usize, cap: usize, late: bool) -> (ScnB, StoreIx, Vec<CompId>, Vec<CompId>, usize, GateId, Option<SubId>) {
     let mut b = ScnB::new();
     let s = b.store("c12", cap, Pol::Block, Ctor::Builder);
     let reds = vec![b.reducer(s), b.reducer(s)];
     let mws: Vec<CompId> = (0..m).map(|_| b.middleware(s)).collect();
     let sub = b.sub(SubKind::Direct);
-    b.s.prelude.push(Op::Subscribe { store: s, sub });
+    if !late {
+        b.s.prelude.push(Op::Subscribe { store: s, sub });
+    }
     let th = b.thread();
     let fg = b.gate();
-    (b, s, reds, mws, th, fg)
+    (b, s, reds, mws, th, fg, if late { Some(sub) } else { None })
 }
 
 /// number of follow-up notifications the scenario can wait for (deterministic, single producer)
@@ -59,7 +66,8 @@ fn expected_followups(scn: &Scenario, s: StoreIx, acts: &[ActId]) -> u32 {
 fn batch(m: usize, bi: u64) -> Scenario {
     let slots = 3 * m;
     let total: u64 = 4u64.pow(slots as u32);
-    let (mut b, s, reds, mws, th, fg) = base(m, 4);
+    // every third batch runs on a store that has no subscriber while the assignments go through
+    let (mut b, s, reds, mws, th, fg, late) = base(m, 4, bi % 3 == 2);
     let mut code = bi * 64;
     for _ in 0..64 {
         if code >= total {
@@ -83,7 +91,7 @@ fn batch(m: usize, bi: u64) -> Scenario {
         b.s.threads[th].push(Op::Dispatch { act: a, via: VIAS[(code % 3) as usize] });
         code += 1;
     }
-    finish(b, s, th, fg, 0)
+    finish(b, s, th, fg, 0, late)
 }
 
 pub fn enumerate(tier: Tier, sched: bool) -> EnumSpec {
@@ -122,7 +130,7 @@ fn verdict3(bits: u32) -> Verdict {
 pub fn build(raw: &Raw, _tier: Tier, _sched: bool) -> Scenario {
     let m = 1 + pick(knob(raw, 0), 3);
     let cap = CAPS[pick(knob(raw, 1), CAPS.len())];
-    let (mut b, s, reds, mws, th, fg) = base(m, cap);
+    let (mut b, s, reds, mws, th, fg, late) = base(m, cap, knob(raw, 2) % 3 == 0);
     let mut acts = vec![];
     for r in raw.threads.first().map(|v| v.as_slice()).unwrap_or(&[]) {
         let o = ActOpts { reducers: &reds, middlewares: &mws, effects: true, followups: true, veto: false, keeps: true, panics: false };
@@ -163,8 +171,10 @@ pub fn build(raw: &Raw, _tier: Tier, _sched: bool) -> Scenario {
         acts.push(a);
         b.s.threads[th].push(Op::Dispatch { act: a, via: via_of(r) });
     }
-    let n = expected_followups(&b.s, s, &acts);
-    finish(b, s, th, fg, n)
+    // follow-ups are counted through the subscriber's notifications: with a late subscriber
+    // only the sentinel can be awaited (follow-ups may be notified before it arrives)
+    let n = if late.is_some() { 0 } else { expected_followups(&b.s, s, &acts) };
+    finish(b, s, th, fg, n, late)
 }
 
 pub fn check(scn: &Scenario, h: &History) -> Outcome {
@@ -177,7 +187,12 @@ pub fn check(scn: &Scenario, h: &History) -> Outcome {
     }
     let mut v = vec![];
     let mut lost = vec![];
-    check_effects(&d, &p, true, &mut v, &mut lost);
+    // (with the late-subscriber variant the follow-ups are not awaited before the stop)
+    let awaited = scn.prelude.iter().any(|o| matches!(o, Op::Subscribe { .. }));
+    if !awaited {
+        out.class("no-subscriber-while-the-actions-run");
+    }
+    check_effects(&d, &p, awaited, &mut v, &mut lost);
     for m in v {
         out.viol(m);
     }
@@ -228,7 +243,7 @@ pub fn check(scn: &Scenario, h: &History) -> Outcome {
 
 pub static PROFILE: Profile = Profile {
     id: "C12",
-    rule: "enumeration: every assignment of {Continue,Done,Break,Err} to the 3 hooks of m middlewares for one action (m=1,2 quick: 64+4096; m=3 thorough: 262144), 64 assignments per store so state carries over; plus proptest scenarios: 1-3 middlewares, up to 12/24 actions with independent verdicts per (action,hook), effect-removal masks, Dispatch/Keep answers, effects of every kind incl. follow-up actions (awaited before stop). Non-trivial = the scenario contains at least one action with a non-Continue verdict or an effect removal; distinct by scenario hash.",
+    rule: "enumeration: every assignment of {Continue,Done,Break,Err} to the 3 hooks of m middlewares for one action (m=1,2 quick: 64+4096; m=3 thorough: 262144), 64 assignments per store so state carries over, every third store without any subscriber until the closing sentinel; plus proptest scenarios: 1-3 middlewares, up to 12/24 actions with independent verdicts per (action,hook), effect-removal masks, Dispatch/Keep answers, effects of every kind incl. follow-up actions (awaited before stop), a third of the stores without any subscriber until the closing sentinel. Non-trivial = the scenario contains at least one action with a non-Continue verdict or an effect removal; distinct by scenario hash.",
     raw,
     build,
     check,
